@@ -20,8 +20,11 @@ ops:
       → the same plus {"obj":O},  O ::= {"accepts":bool,"store":{"ok":[S…]}|{"err":"multAssign"|"crash"}}
         S ::= {"none":true} | {"scalar":json} | {"list":[json…]}
         plus "lists":[[json…]…] — per list assignment node of the trace the values the model keeps
-  {"op":"case","rules":[{"body":B,"attrs":[n…]}…],"objs":[{"rule":i,"trace":[E…]}…]}
+  {"op":"case","rules":[{"params":bool,"body":B,"attrs":[n…]}…],"objs":[{"rule":i,"trace":[E…]}…]}
       → {"rules":[static output per rule],"objs":[O…]}
+      params = the rule carries rule modifiers; body = the body as the body visitors return it; the model
+      works on the root expression `visit_textx_rule` makes of the two (`Mult.Rule.root`) and also returns
+      it: "wrapped":bool
 -/
 open Lean Wire Mult
 
@@ -103,7 +106,15 @@ def objOut (b : Body) (attrs : List Nat) (t : List (Raw W)) : Json :=
   Json.mkObj [("accepts", toJson (accepts b (t.map Raw.ev))), ("store", st), ("lists", toJson lists)]
 
 def parseRule (j : Json) : Option (Body × List Nat) := do
-  pure (← parseBody (← getObj? j "body"), ← getNatList? j "attrs")
+  let r : Rule := { params := ← getBool? j "params", body := ← parseBody (← getObj? j "body") }
+  pure (r.root, ← getNatList? j "attrs")
+
+/-- is the root the one-element sequence wrapped around the body? (never a sequence otherwise: the
+body visitors reduce one-element sequences) -/
+def wrapped (root : Body) : Bool :=
+  match root with
+  | .seq [_] => true
+  | _ => false
 
 def parseObj (rules : Array (Body × List Nat)) (j : Json) : Option Json := do
   let r ← getNat? j "rule"
@@ -128,7 +139,8 @@ def handle (j : Json) : Json :=
     | some rules =>
       match (getArr? j "objs").bind (fun a => a.toList.mapM (parseObj rules.toArray)) with
       | some objs =>
-        Json.mkObj [("rules", toJson (rules.map fun (b, attrs) => Json.mkObj (staticOut b attrs))),
+        Json.mkObj [("rules", toJson (rules.map fun (b, attrs) =>
+                      Json.mkObj (staticOut b attrs ++ [("wrapped", toJson (wrapped b))]))),
                     ("objs", toJson objs)]
       | none => badOp
     | none => badOp
